@@ -32,10 +32,16 @@ const (
 	w1MetricVal    = 1003
 	w1MetricUniq   = 1004
 	w1MetricPct    = 1005
+	// low-resolution counter (30 s): its rows wait in the agent's receive queue up to a minute ahead of
+	// the clock. Not one of the "workload metrics" of the marker scheme (C03 and the per-second clauses
+	// of C01 ignore it like a built-in row); its rows are tracked one by one, see w1SlowKey.
+	w1MetricSlow     = 1010
+	w1SlowResolution = 30
 )
 
 var w1MetricNames = map[int32]string{
 	w1MetricMarker: "w1_marker", w1MetricCnt: "w1_cnt", w1MetricVal: "w1_val", w1MetricUniq: "w1_uniq", w1MetricPct: "w1_pct",
+	w1MetricSlow: "w1_slow",
 }
 
 func w1IsWorkloadMetric(id int32) bool { return id >= w1MetricMarker && id <= w1MetricPct }
@@ -54,10 +60,15 @@ func w1MetricStorage() *metajournal.MetricsStorage {
 		{w1MetricVal, format.MetricKindValue, "k"},
 		{w1MetricUniq, format.MetricKindUnique, "k"},
 		{w1MetricPct, format.MetricKindValuePercentiles, "k"},
+		{w1MetricSlow, format.MetricKindCounter, "agent"},
 	}
 	var events []tlmetadata.Event
 	for i, d := range defs {
-		mv := format.MetricMetaValue{MetricID: d.id, Name: w1MetricNames[d.id], Kind: d.kind, Resolution: 1, Weight: 1,
+		resolution := 1
+		if d.id == w1MetricSlow {
+			resolution = w1SlowResolution
+		}
+		mv := format.MetricMetaValue{MetricID: d.id, Name: w1MetricNames[d.id], Kind: d.kind, Resolution: resolution, Weight: 1,
 			Version: int64(i + 1), Tags: []format.MetricMetaTag{{}, {Name: d.tag, RawKind: "int"}}}
 		if d.id != w1MetricMarker { // tag layouts of the shared keys: 2 and 3 are string tags, 4 is a second raw int tag
 			mv.Tags = append(mv.Tags, format.MetricMetaTag{Name: "s2"}, format.MetricMetaTag{Name: "s3"}, format.MetricMetaTag{Name: "n4", RawKind: "int"})
@@ -71,7 +82,11 @@ func w1MetricStorage() *metajournal.MetricsStorage {
 	ms.ApplyEvent(events)
 	for _, d := range defs {
 		m := ms.GetMetaMetric(d.id)
-		if m == nil || m.Name != w1MetricNames[d.id] || m.EffectiveResolution != 1 {
+		want := 1
+		if d.id == w1MetricSlow {
+			want = w1SlowResolution
+		}
+		if m == nil || m.Name != w1MetricNames[d.id] || m.EffectiveResolution != want {
 			panic(fmt.Sprintf("w1 harness: metric %d was not accepted by MetricsStorage", d.id))
 		}
 		if (d.kind == format.MetricKindValuePercentiles) != m.HasPercentiles {
